@@ -34,9 +34,9 @@ Reachable(e) == {f \in Fam : Flag(e.cfg, f)} \cup ToSet(e.macroOn)
 CheckGate(e) ==
   LET listing == ToSet(e.listing)
       executed == ToSet(e.executed) IN
-  Tag(~e.panic, "crash")
+  \* (a run that panics is C01's business; whatever it did observe is still checked here)
   \* Gate!CfgStable, Gate!MacroScoped
-  \cup Tag(e.cfgAfter = e.cfg, "config-changed")
+  Tag(e.cfgAfter = e.cfg, "config-changed")
   \* every gated alternative consulted the parser's copy: nothing is emitted while its flag is off
   \cup Tag(\A i \in 1..Len(e.emis) : e.emis[i].on, "emitted-while-off")
   \* Gate!CopyDiffers: a family flag is on in the parser's copy only if the VM has it on or a macro of this input turned it on
